@@ -24,6 +24,7 @@ type Plan struct {
 	Lifecycle *LifePlan       `json:"lifecycle,omitempty"`
 	Trackers  *TrackerPlan    `json:"trackers,omitempty"`
 	Policy    *PolicyPlan     `json:"policy,omitempty"`
+	Registry  *RegistryPlan   `json:"registry,omitempty"`
 	Generic   json.RawMessage `json:"generic,omitempty"`
 }
 
@@ -250,6 +251,67 @@ func init() {
 			tp.Steps = append(tp.Steps, Step{At: at, Kind: "partition", Arg: "h0", Dur: min(r.Dur(time.Second, 30*time.Second), tp.FaultsStop-at)})
 		}
 		tp.Magnet = len(tp.Webseeds) == 0 && r.Chance(0.25)
+		if r.Chance(0.2) { // transient disk write errors (ENOSPC/EIO) while faults flow
+			for k := 0; k < r.Range(1, 2); k++ {
+				tp.WriteErrAt = append(tp.WriteErrAt, r.Range(1, 2*np+2))
+			}
+		}
+		tp.Bound = 2 * time.Hour
+		tp.Liveness = true
+		p.Transfer = tp
+	}, Run: func(env *Env, p *Plan) { RunTransfer(env, p.Transfer) }})
+
+	// C09: piece-picker stress: a swarm of partial, stalling, choking peers contending for few
+	// pieces, some piece held by nobody for a long time (no end game), tiny duplicate limits.
+	Register(&Scenario{Name: "picker", Gen: func(r *simrt.Rand, tier string, p *Plan) {
+		tp := genTransferBase(r, tier)
+		np := numPiecesOf(tp.Layout)
+		tp.K.EndgameMaxDuplicateDownloads = simrt.Pick(r, []int{1, 1, 2, 3})
+		tp.K.RequestTimeout = r.Dur(2*time.Second, 6*time.Second)
+		tp.FaultsStop = r.Dur(40*time.Second, 120*time.Second)
+		// the contended pieces and the piece nobody has
+		hot := refbt.NewBits(np)
+		for j := 0; j < r.Range(1, 3); j++ {
+			hot.Set(r.Intn(np))
+		}
+		missing := r.Intn(np)
+		n := r.Range(2, 7)
+		for i := 0; i < n; i++ {
+			b := refbt.Behavior{Fast: r.Chance(0.4), Ext: true, Announce: simrt.Pick(r, []string{"auto", "bitfield", "haves"}), ServeDelay: [2]time.Duration{0, r.Dur(0, 200*time.Millisecond)}, MetaMode: "honest"}
+			have := refbt.NewBits(np)
+			for j := 0; j < np; j++ {
+				if j != missing && (hot.Has(j) || r.Chance(0.15)) {
+					have.Set(j)
+				}
+			}
+			b.Have = have
+			switch r.Intn(6) {
+			case 0, 1:
+				b.Snub = true
+			case 2:
+				b.SnubAfter = r.Range(1, 6)
+			case 3:
+				b.ChokeFlapEvery = r.Dur(500*time.Millisecond, 8*time.Second)
+			case 4:
+				b.ServeDelay = [2]time.Duration{time.Second, r.Dur(time.Second, 10*time.Second)}
+			case 5:
+				// plain partial peer
+			}
+			if r.Chance(0.15) {
+				b.DisconnectAfterBlocks = r.Range(1, 10)
+			}
+			if r.Chance(0.2) {
+				b.UnchokeDelay = r.Dur(0, 10*time.Second)
+			}
+			ps := PeerSpec{Name: fmt.Sprintf("s%d", i), B: b, Mode: simrt.Pick(r, []string{"dial", "listen"}), At: r.Dur(0, tp.FaultsStop/2), Via: "manual"}
+			if ps.Mode == "dial" && r.Chance(0.3) {
+				ps.Redial = r.Dur(2*time.Second, 20*time.Second)
+			}
+			tp.Peers = append(tp.Peers, ps)
+		}
+		hp := honestPeer(r, tp.Layout, "h0", np)
+		hp.At = tp.FaultsStop - r.Dur(0, 5*time.Second)
+		tp.Peers = append(tp.Peers, hp)
 		tp.Bound = 2 * time.Hour
 		tp.Liveness = true
 		p.Transfer = tp
